@@ -23,6 +23,7 @@ def run_job(args):
 
 
 def body(c):
+    c.spec_cases_replayed = True
     rng = random.Random(c.seed)
     dtypes = ["float64", "int32", "big_int32", "big_float64", "bool", "complex128", "S3", "U3", "V7", "datetime", "timedelta", "record", "mixed_endian_record", "packed5", "object", "uint8"]
     shapes = ["0d", "empty", "empty2d", "vec", "mat", "cube", "big", "bigmat"]
